@@ -466,6 +466,79 @@ Definition checkb (good : pstate -> bool) (R : list pstate) : bool :=
                       end) (events_of s)
     && (negb (stableb s) || good s)) R.
 
+(* ---------- runs of the protocol after one promotion request -------------------------------------- *)
+
+(* the application of the host asks for the promotion of k *)
+Definition promoted (n : nat) (k : peer) : pstate := default (session n) (step (session n) (EPromote host k)).
+Definition promote_in (s : pstate) (h k : peer) : pstate := default s (step s (EPromote h k)).
+Definition all_internal (tr : list pevent) : Prop := Forall (fun e => internal e = true) tr.
+
+Definition epeers (e : pevent) : list peer :=
+  match e with
+  | EPromote a b | EDeliverDown a b | EDeliverUp a b | ETimeout a b => [a; b]
+  | ESrvUp p | ESrvDown p | ECliConnecting p | EVerify p | ECliDown p | ENotify p | EConnect p | ELinkDown p => [p]
+  end.
+
+(* what a promotion of [k] (a client of [h]) ends in when the RenetClient of [h] is dead:
+   k hosts nobody and waits for its first ClientConnected for ever (flag stuck, stale client
+   transport kept), h has closed its server and sits in ClientState::Connecting for ever *)
+Definition chain_broken (s : pstate) (h k : peer) : Prop :=
+  (exists x y, ps s = {[ k := x; h := y ]} /\ h <> k /\
+     hosting x = true /\ srv_state x = SConnected /\ clients x = [] /\ flag x = true /\
+     client_of x = Some h /\ link_up x = false /\
+     hosting y = false /\ srv_state y = SDisconnected /\ client_of y = Some k /\ cli_state y = CConnecting /\
+     link_up y = false /\ sticky y = true /\ flag y = false) /\ no_traffic s.
+Definition chain_brokenb (s : pstate) (h k : peer) : bool :=
+  match ps s !! k, ps s !! h with
+  | Some x, Some y =>
+      bool_decide (ps s = {[ k := x; h := y ]}) && bool_decide (h <> k) &&
+      bool_decide (hosting x = true /\ srv_state x = SConnected /\ clients x = [] /\ flag x = true /\
+                   client_of x = Some h /\ link_up x = false /\
+                   hosting y = false /\ srv_state y = SDisconnected /\ client_of y = Some k /\ cli_state y = CConnecting /\
+                   link_up y = false /\ sticky y = true /\ flag y = false)
+      && bool_decide (up s = ∅) && bool_decide (down s = ∅)
+  | _, _ => false
+  end.
+
+(* the goal of a promotion of k: one host, everybody else its connected client *)
+Definition session_ok (s : pstate) (k : peer) : Prop :=
+  hosts s = [k] /\
+  forall p x, ps s !! p = Some x -> p <> k ->
+    client_of x = Some k /\ link_up x = true /\ cli_state x = CConnected /\ flag x = false.
+(* full statement of C07 for n clients (true for n = 1, refuted for n = 2) *)
+Definition C07_statement (n : nat) (k : peer) : Prop :=
+  forall tr s, all_internal tr -> run (promoted n k) tr = Some s -> stable s -> session_ok s k.
+
+(* S8, as seen in a 3-peer session after the promotion of 1: 0 has moved over to 1, 2 is stranded *)
+Definition s8_outcome (s : pstate) : Prop :=
+  exists x0 x1 x2, ps s !! (0%N : peer) = Some x0 /\ ps s !! (1%N : peer) = Some x1 /\ ps s !! (2%N : peer) = Some x2 /\
+    stranded x2 /\ flag x2 = true /\ client_of x2 = Some 1%N /\
+    hosting x1 = true /\ clients x1 = [0%N] /\ flag x1 = false /\
+    client_of x0 = Some 1%N /\ link_up x0 = true /\ cli_state x0 = CConnected /\ flag x0 = false /\ clients x0 = [].
+Definition s8_outcomeb (s : pstate) : bool :=
+  match ps s !! (0%N : peer), ps s !! (1%N : peer), ps s !! (2%N : peer) with
+  | Some x0, Some x1, Some x2 =>
+      bool_decide (stranded x2 /\ flag x2 = true /\ client_of x2 = Some 1%N /\
+        hosting x1 = true /\ clients x1 = [0%N] /\ flag x1 = false /\
+        client_of x0 = Some 1%N /\ link_up x0 = true /\ cli_state x0 = CConnected /\ flag x0 = false /\ clients x0 = [])
+  | _, _, _ => false
+  end.
+
+(* ---------- invariants (proved in PromotionProofs.v for sessions of any size) -------------------- *)
+
+(* holds in every state of every run, application events included *)
+Definition wf_peer (x : ppeer) : Prop :=
+  (hosting x = false -> clients x = [] /\ srv_events x = [] /\ srv_added x = false) /\
+  (client_of x = None -> link_up x = false /\ cli_added x = false) /\
+  (sticky x = true -> link_up x = false) /\
+  (cli_state x <> CDisconnected -> is_Some (client_of x) \/ cli_removed x = true) /\
+  (srv_state x = SConnected -> hosting x = true \/ srv_removed x = true) /\
+  NoDup (clients x).
+Definition roles_inv (s : pstate) : Prop :=
+  (forall p x, ps s !! p = Some x -> wf_peer x) /\
+  (forall h x c, ps s !! h = Some x -> c ∈ clients x -> c <> h /\ is_Some (ps s !! c)) /\
+  (forall c y h, ps s !! c = Some y -> link_up y = true -> client_of y = Some h -> c <> h /\ is_Some (ps s !! h)).
+
 (* ---------- example runs ---------------------------------------------------------------------------- *)
 Local Open Scope N_scope.
 
